@@ -632,5 +632,10 @@ def redundant(ctx, F):
     ok_err = len(err) == 1 and err[0][2][0][0] == 'vfield' and err[0][2][0][2] == 'Error'
     em = [(eb, literals(b, R, eb)) for eb, et in b.calls_to('AffFuncBase::empty')]
     ok_em = len(em) == 1 and any(l[0] == 'is' and l[2] == frozenset(['Infeasible']) and is_call(l[1], 'AffFuncBase::solve_linprog') for l in em[0][1])
+    if ok_em:
+        # the canonical empty polytope lives in the input space of self (same number of columns)
+        a_ = s(R.call_args(em[0][0])[0])
+        ok_em = (is_call(a_, 'AffFuncBase::indim') and a_[2][0] == ('param', 'self')) or \
+            prune._dim_atom(a_) == ('cols', ('param', 'self'))
     (ctx.ok if ok_err and ok_em else ctx.bad)('C15.R3', site + '#other-arms', 'Error -> Err(msg), Infeasible -> canonical empty, Unbounded keeps the row' if ok_err and ok_em else
                                             'the non-Optimal arms do not map Error to Err and Infeasible to the canonical empty polytope', b.span)
